@@ -30,6 +30,15 @@ CHECKS = {
  "C20": ("exploration", "exhaustive enumeration of shapes, basis inputs, request lengths and short call sequences against schoolbook references and the aes crate",
          "Transpose: every accepted shape 128 x c (c=16..4096 step 8, also 256/384 rows) with single-bit basis inputs, index-bit matrices, dense inputs and all buffer alignments, AVX2 and portable vs a bit-by-bit reference; clmul: all 128x128 basis pairs plus structured/dense operands, PCLMUL and scalar vs shift-and-xor; fixed-key AES hashes vs the aes crate; AesRng: every length 0..1100 from a fresh generator vs the AES-CTR keystream and every short call sequence (fresh-substring oracle).",
          "AES over 2^128 blocks is not enumerable (structured + tape-derived blocks only); non-AVX2/PCLMUL CPUs are covered by calling the portable code directly", "4.C20", "E3"),
+ "C06": ("exploration", "exhaustive enumeration of the honest party's inputs per tape (transcript diff) plus enumeration of a tape set under a harness-owned entropy source",
+         "For fixed tapes every input assignment of the honest party is executed and everything it sends is diffed (only the masked-input broadcast, by exactly the input difference, and values downstream of it may change); over an enumerated tape set the party's own mask share per wire is reconstructed from the transcript (both values occur, count within 5.5 sigma for input 0 and 1), probed global keys and 128-bit mask vectors are pairwise distinct, and a 128-bit canary input / own-share vector is searched in the traffic at every bit offset.",
+         "the frequency clause is a count over enumerated tapes, not decided by exhaustive exploration; delta is read through a guarded probe", "4.C06", "E1"),
+ "C08": ("fault_enumeration", "exhaustive enumeration of single message alterations (byte-level and structure-aware) and crash points of one corrupted party against the real engine, in worker subprocesses",
+         "For every message ordinal of the corrupted sender every byte-level class and every count-changing structural mutation at every nesting level, and every crash point, is executed; each honest party must reach Ok/Err (no panic, no 'no enabled action' hang) with bounded heap. Aborts are attributed to their case through subprocess isolation.",
+         "one corrupted party, single fault (thorough adds malformed-then-crash pairs); heap accounting per party thread", "4.C08", "E1+E2"),
+ "C10": ("exploration", "enumeration of an (n, batch length, operand pattern) lattice through guarded API wrappers on the real preprocessing, relations recomputed from plain integers for every index and ordered pair",
+         "fashare for n=2..5 over dense small lengths and block/batch boundaries, fashare+beaver_aand for n=2..4 with fresh, xor-combined and constant-forced operands (thorough: bucket sizes 5/4/3), the real trusted dealer with harness-side parties, and shared-coin agreement; MAC/key and AND relations are checked for every index and ordered pair.",
+         "wrappers pass arguments through unchanged; default schedule", "4.C10", "E1"),
 }
 
 NOT_YET = "check not built yet (construction in progress, see DESIGN.md section 8)"
